@@ -92,7 +92,7 @@ pub fn replay(v: &Value) -> Outcome {
             let text = w.join(" ");
             // tables with resolved conflicts may loop on cyclic grammars (reported under C19); the
             // depth limit turns that into an error value instead of exhausting memory
-            let ro = if has_resolved { RunOpts { max_depth: Some(5000), ..Default::default() } } else { RunOpts::default() };
+            let ro = RunOpts { max_depth: Some(5000), ..Default::default() };
             let ev = run_safe(&tables, &text, ro);
             o.evals += 1;
             let (ok, kind) = verdict(&ev);
@@ -162,8 +162,9 @@ pub fn replay(v: &Value) -> Outcome {
         for variant in 0..3u64 {
             let (text, offs) = if variant == 0 { plain(&w) } else { decorate(&w, h0 ^ (variant * 7919)) };
             let variants: Vec<(RunOpts, bool)> = vec![
-                (RunOpts::default(), true),
-                (RunOpts { trim: true, ..Default::default() }, false),
+                // every run carries a depth limit: a table that runs away ends in an error value
+                (RunOpts { max_depth: Some(5000), ..Default::default() }, true),
+                (RunOpts { trim: true, max_depth: Some(5000), ..Default::default() }, false),
                 (RunOpts { max_depth: Some(2 + variant as usize), ..Default::default() }, false),
                 (RunOpts { max_depth: Some(1), trim: true, ..Default::default() }, false),
                 (RunOpts { max_depth: Some(64), ..Default::default() }, false),
